@@ -165,7 +165,7 @@ def _run_harnesses(names, playback, timeout, cpath, skip):
     try:
         missing = make_crate(d, skip)
         names_run = [n for n in names if table.get(n, {}).get('module') not in skip]
-        cmd = ['timeout', str(timeout), 'cargo', 'kani', '-Z', 'function-contracts', '-Z', 'stubbing', '-j', '8', '--output-format', 'terse', '--no-overflow-checks', '-Z', 'unstable-options', '--harness-timeout', os.environ.get('VERIF_KANI_HTIMEOUT', '600s')]
+        cmd = ['timeout', str(timeout), 'cargo', 'kani', '-Z', 'function-contracts', '-Z', 'stubbing'] + ([] if playback else ['-j', '8']) + ['--output-format', 'terse', '--no-overflow-checks', '-Z', 'unstable-options', '--harness-timeout', os.environ.get('VERIF_KANI_HTIMEOUT', '600s')]
         if playback:
             cmd += ['-Z', 'concrete-playback', '--concrete-playback=print']
         for n in names_run:
@@ -242,7 +242,9 @@ def lane(pid, tier, cov, ledger, findings, assumptions):
                 continue
             pb = run_harnesses([n], playback=True)
             cex = extract_playback(pb.get('raw', ''))
+            vals = re.findall(r'(?m)^\s*//\s*(\S.*)$', cex or '')
             payload = {'property': pid, 'obligation': ob_id, 'lane': 'kani', 'harness': n, 'module': h['module'], 'kind': h['kind'],
+                       'failing_input_values_in_any_order': vals,
                        'what': h['doc'], 'failed_checks': res.get('failed_checks'), 'verifier_output': res.get('tail', '')[-2500:],
                        'counterexample': cex, 'replay': 'python3 /verif/check.py --replay <this file>  (runs the concrete values natively against the real code)'}
             rep = None
@@ -292,7 +294,8 @@ def native_replay(h, name, test_src):
         p = subprocess.run(['timeout', '900', 'cargo', 'kani', 'playback', '-Z', 'concrete-playback', '--', 'kani_concrete_playback'],
                            cwd=d, capture_output=True, text=True, env=env)
         out = (p.stdout + p.stderr)
-        return {'rc': p.returncode, 'failed_natively': ('FAILED' in out or 'panicked' in out), 'output_tail': out[-2500:]}
+        keep = [l for l in out.split('\n') if re.search(r'panicked|assertion|test result|^test |FAILED|left:|right:|index out of bounds|overflow|unwrap', l)]
+        return {'rc': p.returncode, 'failed_natively': ('FAILED' in out or 'panicked' in out), 'relevant_output': keep[:30], 'output_tail': out[-800:]}
     finally:
         shutil.rmtree(d, ignore_errors=True)
 
